@@ -307,47 +307,26 @@ def script_holds_every_check(it, self):
     written_defs = [t.attrs['parts'][0] for t in texts if isinstance(t, SObj) and t.attrs.get('kind') == 'test_def']
     if written_defs != list(range(len(defs))):
         return False            # every definition built is written, once, in order
-    want = []
     cs, ce = self.attrs['check_stdout'], self.attrs['check_stderr']
 
-    def concrete(b):
-        if isinstance(b, SBool):
-            v = z3.simplify(b.z)
-            raise Unsupported('flag not decided on this path') if not (z3.is_true(v) or z3.is_false(v)) else None
-            return z3.is_true(v)
-        return bool(b)
-    i = 0
+    def decided(flag):
+        # which checks were requested is decided by the path condition
+        if isinstance(flag, SBool):
+            sv = z3.Solver()
+            for c in it.path.pc:
+                sv.add(c)
+            sv.add(z3.Not(flag.z))
+            return sv.check() == z3.unsat
+        return bool(flag)
 
-    def stream(name, attr, key, refp):
-        nonlocal i
-        if i >= len(defs):
-            return False
-        d = defs[i]
-        i += 1
+    def stream_ok(d, name, attr, key, refp):
         e = excl.get(key) or (None, None, None)
         return (d['name'] == name and d['actual'] == attr and d['kind'] == 'String'
                 and isinstance(d['ref'], SObj) and d['ref'].attrs['parts'][0] == refp
                 and d['patterns'] is e[0] and d['removals'] is e[1] and d['substrings'] is e[2])
-    # which stream checks were requested is decided by the path condition
-    def decided(flag):
-        if isinstance(flag, SBool):
-            s = z3.Solver()
-            for c in it.path.pc:
-                s.add(c)
-            s.add(z3.Not(flag.z))
-            return s.check() == z3.unsat
-        return bool(flag)
-    if decided(cs):
-        if not stream('stdout', 'self.output', 'STDOUT', 'REF/STDOUT'):
-            return False
-    if decided(ce):
-        if not stream('stderr', 'self.error', 'STDERR', 'REF/STDERR'):
-            return False
-    for k, f in enumerate(files):
-        if i >= len(defs):
-            return False
-        d = defs[i]
-        i += 1
+
+    def file_ok(d, k):
+        f = files[k]
         names = g['names'].get(k, [])
         if len(names) != 1 or d['name'] is not names[0]:
             return False
@@ -366,12 +345,24 @@ def script_holds_every_check(it, self):
         ft = g['short'][k]['ftype']
         if decided(ft.attrs['text']):
             e = g['short'][k]['exc'] or (None, None, None)
-            if not (d['kind'] == 'TextFile' and d['patterns'] is e[0] and d['removals'] is e[1]
-                    and d['substrings'] is e[2] and d['encoding'] is ft.attrs['encoding']):
-                return False
-        elif d['kind'] != 'BinaryFile':
-            return False
-    return i == len(defs)
+            return (d['kind'] == 'TextFile' and d['patterns'] is e[0] and d['removals'] is e[1]
+                    and d['substrings'] is e[2] and d['encoding'] is ft.attrs['encoding'])
+        return d['kind'] == 'BinaryFile'
+    # the checks the script must hold, in any order, each exactly once
+    expected = []
+    if decided(cs):
+        expected.append(lambda d: stream_ok(d, 'stdout', 'self.output', 'STDOUT', 'REF/STDOUT'))
+    if decided(ce):
+        expected.append(lambda d: stream_ok(d, 'stderr', 'self.error', 'STDERR', 'REF/STDERR'))
+    for k in range(len(files)):
+        expected.append(lambda d, k=k: file_ok(d, k))
+    if len(expected) != len(defs):
+        return False
+    import itertools as _it
+    for perm in _it.permutations(range(len(defs))):
+        if all(expected[i](defs[perm[i]]) for i in range(len(defs))):
+            return True
+    return False
 
 
 contract(GT + 'TestGenerator.write_script', props=['C12', 'C11'], params={}, self_view=_ws_view, on_entry=_ws_entry,
